@@ -69,6 +69,7 @@ MapFn(f, x) ==
       [] f = "join_sum" -> <<x[1], x[2][1] + x[2][2]>>       \* (k,(a,b)) -> (k, a+b)
       [] f = "join_right" -> x[2][2]                          \* (k,(a,b)) -> b
       [] f = "mul10" -> 10 * x
+      [] f = "add10" -> x + 10
       [] f \in {"to_max", "from_max", "kv_to_max", "kv_to_min"} -> x     \* lattice wrappers: Max / Min of naturals
 
 PredFn(f, x) ==
@@ -76,6 +77,8 @@ PredFn(f, x) ==
       [] f = "lt3" -> x < 3
       [] f = "lt6" -> x < 6
       [] f = "lt100" -> x < 100
+      [] f = "eq3" -> x = 3
+      [] f = "eq13" -> x = 13
       [] f = "gt1" -> x > 1
       [] f = "key_even" -> x[1] % 2 = 0
       [] f = "val_lt3" -> x[2] < 3
@@ -134,6 +137,9 @@ RefMapFn(f, x, cell) ==
     CASE f = "add_ref" -> <<x + cell[1], cell>>                           \* x + *#s
       [] f = "add_opt" -> <<x + (IF cell = <<>> THEN 100 ELSE cell[1]), cell>>   \* x + #o.unwrap_or(100)
       [] f = "add_len" -> <<x + Len(cell), cell>>                         \* x + #h.len()
+      [] f = "mul_ref" -> <<x * cell[1], cell>>                           \* x * *#s
+      [] f = "opt_mut" -> LET old == IF cell = <<>> THEN 100 ELSE cell[1]  \* *#mut o = Some(old + x); x + old
+                          IN <<x + old, <<old + x>> >>
       [] f = "acc_mut" -> <<x + cell[1], <<cell[1] + x>> >>              \* *#mut s += x; x + old
       [] f = "push_mut" -> <<Len(cell), Append(cell, x)>>                 \* #mut h.push(x); old len
       [] f = "retain_gt" -> <<x, SelectSeq(cell, LAMBDA y : y > x)>>      \* #mut h.retain(|y| y > x); x
